@@ -109,6 +109,38 @@ func runBuildLayout(c *Ctx, r *RuleRun) {
 			if enc != nil {
 				encCalls[typ] = enc
 			}
+		} else if g := cl.Call.StaticCallee(); g != nil && p.InModule(g) && g.Pkg == build.Pkg && g.Name() != "Encode" {
+			// a helper that always writes its []byte parameter into its *bytes.Buffer parameter
+			bi, di := -1, -1
+			for i, pr := range g.Params {
+				if pt, ok := pr.Type().Underlying().(*types.Pointer); ok {
+					if n, ok := pt.Elem().(*types.Named); ok && n.Obj().Pkg() != nil && n.Obj().Pkg().Path() == "bytes" && n.Obj().Name() == "Buffer" {
+						bi = i
+					}
+				}
+				if sl, ok := pr.Type().Underlying().(*types.Slice); ok {
+					if bt, ok := sl.Elem().Underlying().(*types.Basic); ok && bt.Kind() == types.Byte {
+						di = i
+					}
+				}
+			}
+			if bi >= 0 && di >= 0 {
+				md := NewMustDo(p, func(i ssa.Instruction) bool {
+					c2, ok := i.(*ssa.Call)
+					if !ok {
+						return false
+					}
+					o2 := p.CalleeObj(c2)
+					return o2 != nil && funcIs(o2, "bytes", "Buffer", "Write") && c2.Call.Args[0] == ssa.Value(g.Params[bi]) && c2.Call.Args[1] == ssa.Value(g.Params[di])
+				})
+				if md.Func(g) {
+					typ, enc := encOf(cl.Call.Args[di])
+					writes = append(writes, write{cl, cl.Call.Args[di], typ})
+					if enc != nil {
+						encCalls[typ] = enc
+					}
+				}
+			}
 		}
 		if g := cl.Call.StaticCallee(); g != nil && g.Name() == "Encode" && g.Signature.Recv() != nil {
 			if n := p.isModuleNamed(g.Signature.Recv().Type()); n != nil {
@@ -504,25 +536,32 @@ func runWalVersion(c *Ctx, r *RuleRun) {
 			return
 		}
 		n++
-		fs := factsOf(ret)
-		has := func(kk int64, op string) bool {
-			for _, f := range fs {
-				if f.k == kk && f.op == op {
-					return true
+		// what is known about each component at this return: a subset of {<, =, >}
+		rel := map[int64]map[string]bool{0: {"<": true, "=": true, ">": true}, 1: {"<": true, "=": true, ">": true}}
+		allow := map[string][]string{"<": {"<"}, "<=": {"<", "="}, "==": {"="}, "!=": {"<", ">"}, ">=": {"=", ">"}, ">": {">"}}
+		for _, f := range factsOf(ret) {
+			cur := rel[f.k]
+			if cur == nil {
+				continue
+			}
+			next := map[string]bool{}
+			for _, a := range allow[f.op] {
+				if cur[a] {
+					next[a] = true
 				}
 			}
-			return false
+			rel[f.k] = next
 		}
-		ge0 := has(0, ">=") && has(0, "<=") // first components equal: neither < nor >
+		only := func(kk int64, what string) bool { return len(rel[kk]) == 1 && rel[kk][what] }
 		switch {
 		case k < 0:
-			r.Check(has(0, "<") || (ge0 && has(1, "<")), fn, "-1 only when smaller", p.Pos(instrPos(ret)), "first component smaller, or equal and second smaller",
+			r.Check(only(0, "<") || (only(0, "=") && only(1, "<")), fn, "-1 only when smaller", p.Pos(instrPos(ret)), "first component smaller, or equal and second smaller",
 				"a negative answer is given although the first version is not known to be smaller (component by component): recovery takes newer logs for older ones or skips older ones")
 		case k > 0:
-			r.Check(has(0, ">") || (ge0 && has(1, ">")), fn, "1 only when larger", p.Pos(instrPos(ret)), "first component larger, or equal and second larger",
+			r.Check(only(0, ">") || (only(0, "=") && only(1, ">")), fn, "1 only when larger", p.Pos(instrPos(ret)), "first component larger, or equal and second larger",
 				"a positive answer is given although the first version is not known to be larger")
 		default:
-			r.Check(ge0 && has(1, ">=") && has(1, "<="), fn, "0 only when equal", p.Pos(instrPos(ret)), "both components neither smaller nor larger",
+			r.Check(only(0, "=") && only(1, "="), fn, "0 only when equal", p.Pos(instrPos(ret)), "both components neither smaller nor larger",
 				"equality is answered although a component differs: an older wal compares equal to the current one and is not replayed")
 		}
 	})
